@@ -97,6 +97,22 @@ def check_header(version, app_id) -> None:
     back = deserialize(ref)
     if tuple(back.netqasm_version) != tuple(version) or back.app_id != app_id or back.instructions != []:
         raise Failure("header:dec", case, f"reference header decodes as {back.netqasm_version} {back.app_id}")
+    # the header of an object that was already encoded once follows later changes of its app id (setter and instantiate)
+    other = (app_id * 7 + 1) % 65536
+    for how in ("setter", "instantiate"):
+        s2 = Subroutine(instructions=[], netqasm_version=tuple(version), app_id=app_id)
+        bytes(s2)
+        try:
+            if how == "setter":
+                s2.app_id = other
+            else:
+                s2.instantiate(other, {})
+            got2 = bytes(s2)
+        except Exception as e:
+            raise Failure(f"header:re-encode-raises:{how}", case, f"{type(e).__name__}: {e}")
+        ref2 = refenc.encode_header(version, other)
+        if got2 != ref2:
+            raise Failure(f"header:re-encode:{how}", case, f"encoded, app id changed to {other} via {how}, encoded again: {got2.hex()} != reference {ref2.hex()}")
 
 
 def check_subroutine(j) -> None:
